@@ -142,7 +142,8 @@ def edit_line(op, text, update, remove):
 class Real:
     """one run of the real update_cp2k_input with identity tracking"""
 
-    def __init__(self, C, tmp, text, update, remove):
+    def __init__(self, C, tmp, text, update, remove, call=None):
+        """`call(tpl, out)`: the real function to run instead of update_cp2k_input (e.g. write_for_run_vel)"""
         self.err = None
         self.read_err = None
         tpl = os.path.join(tmp, "t.inp")
@@ -168,7 +169,10 @@ class Real:
 
         C.read_cp2k_input = wrap
         try:
-            C.update_cp2k_input(tpl, out, update=copy.deepcopy(update), remove=copy.deepcopy(remove))
+            if call is not None:
+                call(tpl, out)
+            else:
+                C.update_cp2k_input(tpl, out, update=copy.deepcopy(update), remove=copy.deepcopy(remove))
         except Exception as e:  # noqa: BLE001
             self.err = err_kind(e)
         finally:
